@@ -57,6 +57,7 @@ type op struct {
 	Len    int    `json:"len,omitempty"`
 	Whence int    `json:"wh,omitempty"`
 	Fill   byte   `json:"fill,omitempty"`
+	Probe  bool   `json:"probe,omitempty"` // observe the subject's current offset via Seek(0, SeekCurrent) after this op
 }
 
 type seq struct {
@@ -67,6 +68,7 @@ type seq struct {
 	Key     int    `json:"key,omitempty"`  // memfile: key index inside the chain's store
 	End     string `json:"end,omitempty"`  // lifecycle call that ends this buffer: cancel | close | commit | none
 	Drop    bool   `json:"drop,omitempty"` // memfile: Delete the key when the life ends
+	Stream  bool   `json:"stream,omitempty"`
 	Ops     []op   `json:"ops"`
 }
 
@@ -190,6 +192,7 @@ func genSeq(r *rand.Rand, subject string, life int, prev int64) (seq, int64) {
 	}
 	n := 8 + r.Intn(28)
 	readonly := subject == "bufreader"
+	s.Stream = r.Intn(3) == 0
 	if !readonly {
 		if life == 0 || r.Intn(3) == 0 {
 			// earlier buffers are filled with non-zero bytes
@@ -219,6 +222,25 @@ func genSeq(r *rand.Rand, subject string, life int, prev int64) (seq, int64) {
 		}
 		var o op
 		x := r.Intn(100)
+		if s.Stream {
+			// streaming profile: runs of partial sequential Reads with positional
+			// writes (growing the buffer / overwriting unread bytes), ReadAt and
+			// Size probes in between, and only occasional Seek / Write
+			switch y := r.Intn(100); {
+			case y < 45:
+				x = 50 // read
+			case y < 75:
+				x = 30 // writeat
+			case y < 85:
+				x = 70 // readat
+			case y < 93:
+				x = 98 // size
+			case y < 97:
+				x = 90 // seek
+			default:
+				x = 10 // write
+			}
+		}
 		if readonly && x < 45 {
 			x = 45 + r.Intn(55)
 		}
@@ -235,12 +257,22 @@ func genSeq(r *rand.Rand, subject string, life int, prev int64) (seq, int64) {
 			if r.Intn(6) == 0 {
 				o.Len = 0 // zero-length positional writes at every offset class
 			}
+			if s.Stream {
+				o.Len = 1 + r.Intn(12)
+				if r.Intn(2) == 0 {
+					o.Off = m.size + int64(r.Intn(3)) // at / just after the end: grows the buffer
+				} else {
+					o.Off = m.pos[h] + r.Int63n(m.size-m.pos[h]+1) // over bytes not read yet
+				}
+			}
 			if o.Off >= 0 && o.Len > 0 && o.Off+int64(o.Len) > m.size {
 				m.size = o.Off + int64(o.Len)
 			}
 		case x < 62: // read
 			o = op{K: "read", H: h, Len: pickLen(r)}
-			if r.Intn(4) == 0 {
+			if s.Stream {
+				o.Len = 1 + r.Intn(8) // partial reads: the stream stays short of the end
+			} else if r.Intn(4) == 0 {
 				o.Len = int(m.size-m.pos[h]) + r.Intn(20) // up to / across the end
 			}
 			nn := int64(o.Len)
@@ -273,6 +305,11 @@ func genSeq(r *rand.Rand, subject string, life int, prev int64) (seq, int64) {
 			m.pos[h] = t
 		default:
 			o = op{K: "size", H: h}
+		}
+		if s.Stream {
+			o.Probe = r.Intn(15) == 0
+		} else {
+			o.Probe = r.Intn(4) == 0
 		}
 		s.Ops = append(s.Ops, o)
 	}
@@ -585,7 +622,20 @@ func runSeq(run *ev.Run, e *env, caseID string, s seq) (classes map[string]bool,
 			}
 		}
 		for hi, q := range pairs {
-			g, ge := q.sub.Seek(0, io.SeekCurrent)
+			// The observer must not disturb the subject: Seek is a state-changing
+			// call of the API under test (an implementation may drop cached state
+			// in it), so it is used only on ops flagged as probe points and after
+			// the last op; memory.File offers the side-effect free Off().
+			var g int64
+			var ge error
+			if mf, isMem := q.sub.(*memory.File); isMem {
+				g = mf.Off()
+			} else if o.Probe || i == len(s.Ops)-1 {
+				g, ge = q.sub.Seek(0, io.SeekCurrent)
+				run.Count("offset_probes_via_seek", 1)
+			} else {
+				continue
+			}
 			w, _ := q.ref.Seek(0, io.SeekCurrent)
 			if g != w {
 				viol("current-offset", fmt.Sprintf("handle %d at %d err=%s", hi, g, errStr(ge)), fmt.Sprint(w))
@@ -743,6 +793,7 @@ func TestC12(t *testing.T) {
 		"A case is a chain of 2-4 buffers of one subject kind (bufrw 2/5, memfile with two handles 2/5, bufreader 1/5) created one after the other with the lifecycle call Cancel / Close / Commit / none in between "+
 			"(memfile: Delete and re-Create of the same or another key in one memory.Store), each buffer driven by a PRNG op sequence (8-36 ops) and judged against its own fresh OS file. "+
 			"Initial capacity / size hint is 0, a random size, or (60% of later buffers) a size that fits into the previous buffer; earlier buffers are filled with non-zero bytes, later ones start with a gap-creating WriteAt. "+
+			"One third of the buffers use a streaming op mix (runs of partial Reads interleaved with WriteAt at/after the end or over unread bytes, ReadAt/Size probes, rare Seek/Write); the current offset is observed via Seek only at flagged probe points (memory.File: Off() every step) so that the observer does not reset reader state. "+
 			"Offsets: inside / at end / gap beyond end / near end / beyond initial capacity / far beyond / negative, lengths incl. 0; seeks only to targets in [0,size]. "+
 			"Non-trivial = the chain ran to its last op and executed a gap-leaving WriteAt (read-only subject: a read crossing or at the end); "+
 			"distinct = distinct generated chain. Plus a concurrent phase: 2-4 goroutines x 3-7 disjoint WriteAt calls.")
